@@ -1,15 +1,17 @@
 #!/bin/bash
-# usage: bin/try_mutant.sh <PID> <diff> [extra check args]   -- apply a seeded change to /repo, run the check, undo
-pid=$1; diff=$2; shift 2
-cd /repo
-if ! git apply --check "$diff" 2>/dev/null; then
-  if ! git apply --3way "$diff" >/dev/null 2>&1; then echo "PATCH-DOES-NOT-APPLY $diff"; git checkout -- . ; git reset -q; exit 3; fi
+# usage: bin/try_mutant.sh <PID> <diff> [extra check args]
+# runs the check against a scratch worktree of /repo's HEAD with the seeded change applied (VERIF_REPO); /repo itself is not touched,
+# so several changes can be tried in parallel.  (Equivalent to: git -C /repo apply <diff>; ./check; git -C /repo checkout -- .)
+pid=$1; diff=$(readlink -f "$2"); shift 2
+wt=$(mktemp -d /tmp/wt/try_XXXXXX); rmdir "$wt"
+git -C /repo worktree add -q --detach "$wt" HEAD || exit 3
+cleanup() { git -C /repo worktree remove --force "$wt" 2>/dev/null; rm -rf "$wt"; }
+trap cleanup EXIT
+cd "$wt"
+if ! git apply "$diff" 2>/dev/null; then
+  if ! git apply --3way "$diff" >/dev/null 2>&1; then echo "PATCH-DOES-NOT-APPLY $diff"; exit 3; fi
   git reset -q
-else
-  git apply "$diff"
 fi
 git diff --stat | tail -1
-cd /verif && ./check $pid --no-evidence "$@" 2>&1 | grep -E "^VIOLATION|^  harness|^INCONCLUSIVE|^HARNESS-ERROR|^KNOWN|tier=" | cut -c1-400 | head -12
-rc=${PIPESTATUS[0]}
-cd /repo && git checkout -- . && git status --short | grep -v '^??' 
+cd /verif && VERIF_REPO="$wt" ./check $pid --no-evidence "$@" 2>&1 | grep -E "^VIOLATION|^  harness|^INCONCLUSIVE|^HARNESS-ERROR|^KNOWN|tier=" | cut -c1-400 | head -12
 exit 0
